@@ -1076,6 +1076,33 @@ impl Prop for C04 {
         if std::env::var("C04_ONLY").as_deref() == Ok("corr") { return out; }
         out.push(Case::search(app("sites", vec![])).tag("emit-site-scan"));
 
+        // (0) item-level shapes the base generators do not produce: function kinds a format does not support
+        // (extern declarations, value-returning, inline, const functions), in every position relative to ordinary
+        // subs / scripts, for every tool; each must end in an error diagnostic, never in a crash
+        {
+            let kinds = ["void ext();", "int val() { return 0; }", "inline void inl() { }", "const int cst() { return 1; }", "float fval(int a) { return 1.0; }", "void ext2(int a, float b);"];
+            let plain_ecl = ["void sub0() { }", "void sub1(int a) { }", "script timeline0 { }"];
+            let plain_anm = ["script script0 { }", "script script1 { ins_1(); }"];
+            for &g in &[Game::Th06, Game::Th07, Game::Th08, Game::Th09, Game::Th095, Game::Th10, Game::Th12, Game::Th15] {
+                for (i, k) in kinds.iter().enumerate() {
+                    for order in 0..3 {
+                        let p0 = plain_ecl[(i + order) % plain_ecl.len()]; let p1 = plain_ecl[(i + order + 1) % plain_ecl.len()];
+                        let text = match order { 0 => format!("{k}\n{p0}\n{p1}\n"), 1 => format!("{p0}\n{k}\n{p1}\n"), _ => format!("{p0}\n{p1}\n{k}\n{}\n", kinds[(i + 1) % kinds.len()]) };
+                        out.push(compile_case("unsupported-function-kind", Format::Ecl, g, &[], text.as_bytes()));
+                    }
+                }
+            }
+            for &g in &[Game::Th06, Game::Th08, Game::Th12, Game::Th17] {
+                for (i, k) in kinds.iter().enumerate() {
+                    let entry = "entry { path: \"a.png\", has_data: false, rt_width: 16, rt_height: 16, rt_format: 1, img_width: 16, img_height: 16, img_format: 1, memory_priority: 0, sprites: {} }";
+                    let text = if i % 2 == 0 { format!("{entry}\n{k}\n{}\n", plain_anm[i % 2]) } else { format!("{entry}\n{}\n{k}\n{}\n", plain_anm[0], plain_anm[1]) };
+                    out.push(compile_case("unsupported-function-kind", Format::Anm, g, &[], text.as_bytes()));
+                    let msg = format!("meta {{ table: {{0: {{script: \"s\"}}}} }}\n{k}\nscript s {{ }}\n");
+                    out.push(compile_case("unsupported-function-kind", Format::Msg, g, &[], msg.as_bytes()));
+                }
+            }
+        }
+
         // (1) well-formed files and their mutants
         let bases = base_pool(rng, 60 * scale.min(8), 60 * scale.min(8));
         for b in &bases {
